@@ -321,4 +321,13 @@ static std::string dispatch(const std::string &op, const Args &a)
     exit(2);
 }
 
-int main(int argc, char **argv) { vh::g_decoy = true; return run_main(argc, argv, dispatch); }
+static std::string cmpfind_probe()
+{
+    ST::string a = ST_LITERAL("Hello, World: the QUICK brown fox"), b = ST_LITERAL("hello, world: THE quick BROWN fox");
+    std::ostringstream o;
+    o << a.compare(b) << "|" << a.compare_i(b) << "|" << a.find("quick", ST::case_insensitive) << "|" << a.find_last('o') << "|" << a.contains("BROWN")
+      << "|" << ST::hash()(a) << "|" << ST::hash_i()(a) << "|" << hex(a.to_upper()) << "|" << hex(b.to_lower()) << "|" << a.starts_with("hello", ST::case_insensitive);
+    return o.str();
+}
+
+int main(int argc, char **argv) { vh::g_decoy = true; vh::g_probe = cmpfind_probe; return run_main(argc, argv, dispatch); }
